@@ -220,6 +220,50 @@ def wrappers(w, present):
     w.claim('from_cell: keys', list(fc.map.keys()) == [3, 200])
 
 
+@obligation('C09.wrappers.sequence', 'C09', cases=[{'lead': l} for l in (0, 1, 2)],
+            fuc=[B + 'store_dict', B + 'store_ref', S + 'load_dict', S + 'preload_dict', S + 'load_ref', S + 'preload_ref', S + 'load_maybe_ref'],
+            descr='optional dictionaries in the MIDDLE of a cell: after `lead` plain references and a byte, a present dictionary, an '
+                  'absent one and a second present dictionary (different contents, symbolic values) are stored; reading them in that '
+                  'order - each first with preload_dict (which must not consume) then with load_dict - returns each dictionary\'s own '
+                  'pairs: the wrappers honour the reference cursor (references consumed earlier) and the bit position')
+def wrappers_sequence(w, lead):
+    from pytoniq_core.boc.hashmap.hashmap import HashMap
+    from pytoniq_core.boc.builder import Builder
+    v = [w.int(f'v{i}', 0, 255) for i in range(4)]
+    d1 = HashMap(8).with_uint_values(8).set_int_key(1, v[0]).set_int_key(7, v[1]).serialize()
+    d2 = HashMap(8).with_uint_values(8).set_int_key(0, v[2]).set_int_key(255, v[3]).serialize()
+    b = Builder()
+    leads = [Builder().store_uint(i, 8).end_cell() for i in range(lead)]
+    for c in leads:
+        b.store_ref(c)
+    b.store_uint(0xA5, 8).store_dict(d1).store_dict(None).store_dict(d2)
+    s = b.end_cell().begin_parse()
+    for c in leads:
+        w.claim('leading reference', s.load_ref() is c)
+    w.claim('byte', s.load_uint(8) == 0xA5)
+    vd = lambda c: c.load_uint(8)
+    for nm, keys, vals in (('first', [1, 7], v[:2]), ('absent', None, None), ('second', [0, 255], v[2:])):
+        bits_before, off_before = s.remaining_bits, s.ref_offset
+        k, p_ = call(s.preload_dict, 8, None, vd)
+        w.claim(f'{nm}: preload_dict does not raise ({p_ if k != "ok" else ""})', k == 'ok')
+        w.claim(f'{nm}: preload_dict consumes nothing', s.remaining_bits == bits_before and s.ref_offset == off_before)
+        k2, l_ = call(s.load_dict, 8, None, vd)
+        w.claim(f'{nm}: load_dict does not raise ({l_ if k2 != "ok" else ""})', k2 == 'ok')
+        w.claim(f'{nm}: load_dict consumes one bit' + (' and one reference' if keys else ''),
+                s.remaining_bits == bits_before - 1 and s.ref_offset == off_before + (1 if keys else 0))
+        for how, kk, r in (('preload_dict', k, p_), ('load_dict', k2, l_)):
+            if kk != 'ok':
+                continue
+            if keys is None:
+                w.claim(f'{nm}: {how} -> None', r is None)
+            else:
+                ok = r is not None and list(r.keys()) == keys
+                w.claim(f'{nm}: {how}: this dictionary\'s keys, ascending', ok)
+                if ok:
+                    w.claim(f'{nm}: {how}: this dictionary\'s values', w.And(r[keys[0]] == vals[0], r[keys[1]] == vals[1]))
+    w.claim('nothing left unread', s.remaining_bits == 0 and s.ref_offset == len(s.refs))
+
+
 # ---- bounded stand-ins ------------------------------------------------------------------------------------------------
 
 def _roundtrip(w, width, order, vals, label):
